@@ -44,4 +44,7 @@ def get(pid):
     if pid in ('C01', 'C02', 'C04', 'C09', 'C10'):
         from . import runtime_checks
         return getattr(runtime_checks, 'check_' + pid.lower())
+    if pid == 'C06':
+        from . import include_checks
+        return include_checks.check_c06
     raise SystemExit(f'no check registered for {pid}')
